@@ -46,6 +46,15 @@ def gen_cases(tier, rng):
         cases.append('H:f=0 arg:n,number:i0:card=none arg:s:s0:card=none arg:v:b0:init=0/card=none %s exp:%s' % (A.argv_tok(w), exp))
     cases.append('H:f=0 arg:n:i0:card=max~2 arg:s:s0: %s exp:i0=2;s0=s-' % A.argv_tok(['-n', '1', '-n', '2']))
     cases.append('H:f=0 arg:n:i0:card=range~1~3 arg:s:s0: %s exp:i0=3;s0=s-' % A.argv_tok(['-n', '1', '-n', '2', '-n', '3']))
+    # a check and a formatter on the same argument: the check sees the value as given, the formatted value is stored
+    for slot, opts, v, out in (('s0', 'chk=values~tcp~udp/fmt=upper', 'tcp', 'sTCP'.replace('TCP', A.hx('TCP'))),
+                               ('s0', 'chk=values~TCP~UDP/fmt=lower', 'UDP', 's' + A.hx('udp')),
+                               ('s0', 'fmt=upper/chk=values~tcp~udp', 'udp', 's' + A.hx('UDP')),
+                               ('s0', 'chk=ivalues~Tcp/fmt=upper', 'tCP', 's' + A.hx('TCP')),
+                               ('s0', 'chk=minlen~2/chk=maxlen~3/fmt=upper', 'ab', 's' + A.hx('AB')),
+                               ('vs0', 'chk=values~a~b/fmt=upper', 'a,b', '[s%s,s%s]' % (A.hx('A'), A.hx('B')))):
+        for w in (['-p', v], ['--proto=' + v], ['--pro', v]):
+            cases.append('H:f=0 arg:p,proto:%s:%s arg:n:i0: %s exp:i0=0;%s=%s' % (slot, opts, A.argv_tok(w), slot, out))
     # "--" lets every following word be a value, however many follow and whatever they begin with
     for w, exp in ((['-o', '--', '-1', '-2', '-3'], 'b0=0;s0=s-;vi0=[-1,-2,-3];vs0=[]'),
                    (['-o', '1', '--', '-2', '3', '-4'], 'b0=0;s0=s-;vi0=[1,-2,3,-4];vs0=[]'),
